@@ -13,6 +13,10 @@ import sys
 from collections import defaultdict, deque
 
 
+MUTATORS = {'PopBack', 'Erase', 'EraseRange', 'Clear', 'Reserve', 'CopyConstruct', 'CopyAssign', 'MoveConstruct',
+            'MoveAssign', 'Swap'}
+
+
 def read_edges(path):
     edges = []  # (s, act, t)
     with open(path, errors='replace') as f:
@@ -89,7 +93,22 @@ def cover(adj, elist, init, maxlen):
         walk.append(e0)
         uncovered.discard(e0)
         cur = elist[e0][2]
+        probe_next = elist[e0][1]['n'] in MUTATORS
+        nprobe = e0
         while len(walk) < maxlen:
+            # a state-changing operation whose effect on the bookkeeping only shows at the NEXT emplace_back
+            # (stale end marker, wrong capacity, ...) is followed by an Emplace probe before the walk goes on
+            if probe_next:
+                probe_next = False
+                pr = [(eid, t) for eid, t in adj[cur] if elist[eid][1]['n'] == 'Emplace']
+                if pr:
+                    unc = [x for x in pr if x[0] in uncovered]
+                    nprobe += 1
+                    eid, t = unc[nprobe % len(unc)] if unc else pr[nprobe % len(pr)]
+                    walk.append(eid)
+                    uncovered.discard(eid)
+                    cur = t
+                    continue
             # prefer an uncovered edge out of cur; else an edge to a state that has uncovered edges
             cand = [(eid, t) for eid, t in adj[cur] if eid in uncovered]
             if cand:
@@ -105,6 +124,7 @@ def cover(adj, elist, init, maxlen):
                 eid, t = nxt
             walk.append(eid)
             uncovered.discard(eid)
+            probe_next = elist[eid][1]['n'] in MUTATORS and elist[eid][0] != t
             cur = t
         walks.append(walk)
     return walks, uncovered
